@@ -250,7 +250,11 @@ CallFn(f, args, env, input) ==
     [] f = "all" ->
          LET ts == Truths(args[1], env, input) IN
          IF \E j \in 1..Len(ts) : ts[j] \in {"ERR", "X"}
-         THEN (IF \E j \in 1..Len(ts) : Eval(args[1], env, <<input[j]>>).k \in {"any", "eoe"} THEN EAny ELSE EErr)
+         THEN (IF \E j \in 1..Len(ts) : Eval(args[1], env, <<input[j]>>).k \in {"any", "eoe"} THEN EAny
+               \* the criterion fails on some item and is not true on another: "not true for every item" - false, or the error
+               \* (an evaluation that stops at the first item that is not true never meets the failing one)
+               ELSE IF \E j \in 1..Len(ts) : ts[j] \in {"F", "E"} THEN EAny
+               ELSE EErr)
          ELSE EOk(<<B(\A j \in 1..Len(ts) : ts[j] = "T" \/ (Mutant = "allIgnoresEmpty" /\ ts[j] = "E"))>>)
     [] f = "empty"  -> EOk(<<B(Len(input) = 0)>>)
     [] f = "count"  -> EOk(<<I(Len(input))>>)
